@@ -243,10 +243,47 @@ let slice_line (id : string) (body : string) : unit =
     Printf.printf "%s\t%s\t%s\n" id m sp
   | _ -> failwith ("bad slice line: " ^ body)
 
+(* "#lvalue root steps | op [k]": the fixed nested data after an assignment through a path *)
+let world () : dv =
+  let i n = DInt (z_of_int n) in
+  let rc l = DRec (List.map (fun (k, v) -> (cstr k, v)) l) in
+  rc [ ("r", DArr [ rc [("b", rc [("c", i 1); ("d", i 2)]); ("e", i 3)];
+                    rc [("b", rc [("c", i 4); ("d", i 5)]); ("e", i 6)] ]);
+       ("g", rc [("p", rc [("q", rc [("s", i 7); ("t", i 8)]); ("u", i 9)]); ("w", DArr [i 10; i 20])]) ]
+
+let step_of (w : string) : step =
+  if w.[0] = 'i' then SIdx (nat_of_int (int_of_string (String.sub w 1 (String.length w - 1))))
+  else SFld (cstr (String.sub w 1 (String.length w - 1)))
+
+let leaf_paths = ["fr i0 fb fc"; "fr i0 fb fd"; "fr i0 fe"; "fr i1 fb fc"; "fr i1 fb fd"; "fr i1 fe";
+                  "fg fp fq fs"; "fg fp fq ft"; "fg fp fu"; "fg fw i0"; "fg fw i1"]
+let cont_paths = ["fr"; "fr i0"; "fr i0 fb"; "fr i1"; "fr i1 fb"; "fg"; "fg fp"; "fg fp fq"; "fg fw"]
+let path_of (s : string) : step list = List.map step_of (List.filter (fun x -> x <> "") (String.split_on_char ' ' s))
+
+let lvalue_line (id : string) (body : string) : unit =
+  match String.split_on_char '|' body with
+  | [lhs; rhs] ->
+    let ws = List.filter (fun x -> x <> "") (String.split_on_char ' ' lhs) in
+    let p = List.map step_of (List.tl ws) in
+    let op = (match List.filter (fun x -> x <> "") (String.split_on_char ' ' rhs) with
+      | ["set"; k] -> OpSet (z_of_string k) | ["add"; k] -> OpAdd (z_of_string k)
+      | ["sub"; k] -> OpSub (z_of_string k) | ["inc"] -> OpInc | ["dec"] -> OpDec
+      | _ -> failwith ("bad lvalue op: " ^ rhs)) in
+    let out = (match assign p op (world ()) with
+      | None -> "ERR"
+      | Some d ->
+        let leaf s = (match dget (path_of s) d with Some (DInt z) -> string_of_z z | _ -> "?") in
+        let cont s = (match nkeys (path_of s) d with Some n -> string_of_int (int_of_nat n) | None -> "?") in
+        String.concat " " (List.map leaf leaf_paths) ^ " | " ^ String.concat " " (List.map cont cont_paths)) in
+    (* the assignment code of hashutils.go / arrayutils.go is not mirrored: model column = specification *)
+    Printf.printf "%s\t%s\t%s\n" id out out
+  | _ -> failwith ("bad lvalue line: " ^ body)
+
 let () =
   iter_lines (fun line ->
     match split_tab line with
     | id :: body :: _ when String.length body > 6 && String.sub body 0 6 = "#slice" -> slice_line id body
+    | id :: body :: _ when String.length body > 7 && String.sub body 0 7 = "#lvalue" -> lvalue_line id body
     | id :: body :: _ ->
       Hashtbl.reset reprs; Hashtbl.reset contents; counter := 0;
       let ws = List.filter (fun x -> x <> "") (String.split_on_char ' ' body) in
